@@ -89,7 +89,7 @@ Proof. intros [H1 H2 H3]. unfold send_next. destruct (M <=? j)%nat; constructor;
    drop listeners between sends, as single steps *)
 Definition stepped (p : mpc) : bool :=
   match p with
-  | KC1 | KC2 | KC3 | KC4 _ | KC5 _ | KD1 _ | KD2 _ | KD3 _ | KD4 _ | KD5 _ | KD6 _ | KD7 _ | KSL _ | KSW _ _ _ | KSU _ => true
+  | KC1 | KC2 | KC3 | KC4 _ | KC5 _ | KCF1 | KCF2 | KD1 _ | KD2 _ | KD3 _ | KD4 _ | KD5 _ | KD6 _ | KD7 _ | KSL _ | KSW _ _ _ | KSU _ => true
   | _ => false
   end.
 Definition atomic_ev (e : mev) : bool :=
